@@ -80,7 +80,9 @@ def core_py(e, elem=False):
     if t == "Call":
         return c(e.func) and all(el(a) for a in e.args) and all(c(k.value) for k in e.keywords)
     if t == "Subscript":
-        return c(e.value) and c(e.slice) and not isinstance(e.slice, (ast.Tuple, ast.Slice))
+        if isinstance(e.slice, ast.Slice):
+            return c(e.value) and all(x is None or c(x) for x in (e.slice.lower, e.slice.upper, e.slice.step))
+        return c(e.value) and c(e.slice)
     if t in ("List", "Tuple"):
         return all(el(x) for x in e.elts)
     if t == "Set":
